@@ -301,10 +301,27 @@ def c_with_method():
   return C
 
 
+def c_with_renamed_method():
+  class C:
+    def __init__(self, a='da', x='dx'):
+      self.a, self.x = a, x
+
+    def run_one_step(self, y='dy'):
+      return y
+  nm = fresh('CRen')
+  put(C, nm)
+  C.run_one_step.__module__ = MODNAME
+  C.run_one_step.__qualname__ = nm + '.run_one_step'
+  gin.register('step')(C.run_one_step)       # registered under a name that differs from the attribute name
+  C._c13_method = ('run_one_step', 'step')
+  return C
+
+
 CLASSES = {'__init__': c_init, '__new__': c_new, 'both': c_both, 'neither': c_neither, 'metaclass': c_meta,
            'metaclass+__new__': c_meta_new, '__slots__': c_slots, 'namedtuple': c_namedtuple, 'abc': c_abc,
            'dataclass': c_dataclass, 'generic': c_generic, 'with_registered_method': c_with_method,
-           'falsy_class': c_falsy, 'param_named_new_cls': c_param_new_cls}
+           'falsy_class': c_falsy, 'param_named_new_cls': c_param_new_cls,
+           'with_renamed_registered_method': c_with_renamed_method}
 APIS = ['configurable', 'register', 'external_configurable']
 FORMS = ['bare', 'name', 'name_module']
 SCOPES = [None, 's']
@@ -466,7 +483,8 @@ def case_class(shape, api, form, scope, res):
   res.case(tuple(map(str, desc)), True)
   C = CLASSES[shape]()
   base_name = C.__name__ if form == 'bare' else fresh('regc')
-  has_methods = shape == 'with_registered_method'
+  has_methods = shape in ('with_registered_method', 'with_renamed_registered_method')
+  m_attr, m_reg = getattr(C, '_c13_method', ('meth', 'meth'))
   before_vars = dict(vars(C))       # taken BEFORE any pickling (copyreg adds __slotnames__)
   meta_before = (C.__name__, C.__module__, C.__doc__, C.__qualname__)
   try:
@@ -557,14 +575,14 @@ def case_class(shape, api, form, scope, res):
         continue   # decorating in place does not rename the methods (they stay addressable as module.method)
       # the registered method: the original function stays un-injected, the registry's version (reached through the
       # instance of the configurable class, the selector, or the original function object) is injected
-      msel = selector + '.meth'
+      msel = selector + '.' + m_reg
       try:
         gin.bind_parameter(msel + '.y', 'MINJ')
-        direct = C().meth()
-        via_inst = inst.meth()
-        via_obj = gin.get_configurable(C.meth)(C())
+        direct = getattr(C(), m_attr)()
+        via_inst = getattr(inst, m_attr)()
+        via_obj = gin.get_configurable(getattr(C, m_attr))(C())
         via_sel = gin.get_configurable(msel)(C())
-        bnd = gin.get_bindings(C.meth)
+        bnd = gin.get_bindings(getattr(C, m_attr))
       except Exception as e:  # pylint: disable=broad-except
         res.violation('registered_method_unreachable', '%r: via %s: registered method of the class could not be bound / '
                       'reached through the original function object: %r' % (desc, vn, e), desc)
